@@ -226,6 +226,72 @@ class Decl:
             return None
         return False
 
+    def nested_items(self, mb):
+        """[(kind, form, word)] of the items of the nested list of the meta at mb, or None if a part was never inspected"""
+        lst = mb + ".List.0.tokens.parsed"
+        pd = self.d(lst + "#d")
+        if pd is None:
+            return None
+        if pd == 1:
+            return "parse-error"
+        n = self.d(lst + ".Ok.0#len")
+        if n is None:
+            return None
+        out = []
+        for i in range(n):
+            nb = "%s.Ok.0[%d]" % (lst, i)
+            k = self.d(nb + "#d")
+            if k is None:
+                return out + ["unread"]
+            if k == 1:
+                out.append(("lit", None, None))
+                continue
+            f = self.d(nb + ".Meta.0#d")
+            if f is None:
+                ns = self.d(nb + ".Meta.0#not")
+                out.append(("meta", "nonword" if (ns is not None and 0 in ns) else "unread", None))
+                continue
+            wk = nb + ".Meta.0.path.segments[0].ident#word"
+            out.append(("meta", f, D.WORDS[self.l.decisions[wk]] if wk in self.l.decisions else None))
+        return out
+
+    def as_word_list(self, mb, v, allow_word):
+        """PathList-like options: a list of bare words (any names).  True-ish (number of words + 1) / False / None"""
+        if v[0] == "word":
+            return 1 if allow_word else False
+        if v[0] != "list":
+            return None if v[0] in ("unread", "notform") else False
+        items = self.nested_items(mb)
+        if items is None:
+            return None
+        if items == "parse-error":
+            return False
+        for it in items:
+            if it == "unread" or it[1] == "unread":
+                return None
+            if it[0] == "lit" or it[1] != 0:
+                return False
+        return len(items) + 1
+
+    def as_shape_list(self, mb, v):
+        if v[0] != "list":
+            return None if v[0] in ("unread", "notform") else False
+        items = self.nested_items(mb)
+        if items is None:
+            return None
+        if items == "parse-error":
+            return False
+        for it in items:
+            if it == "unread" or it[1] == "unread":
+                return None
+            if it[0] == "lit" or it[1] != 0:
+                return False
+            if it[2] is None:
+                return None
+            if it[2] not in VALID_SHAPE_WORDS:
+                return False
+        return True
+
     def as_flag(self, v):
         if v[0] == "word":
             return True
@@ -267,8 +333,9 @@ class Model:
         return out
 
     # ---------------------------------------------------------------- container
-    def container(self, is_enum):
-        st = {"default": False, "post": None, "auf": False, "from_word": None, "from_none": False}
+    def container(self, is_enum, outer=False):
+        """outer = the element-level derives: attributes / forward_attrs / from_ident (/ supports) instead of from_word / from_none"""
+        st = {"default": False, "post": None, "auf": False, "from_word": None, "from_none": False, "forward_attrs": False, "attributes": False}
         dc = self.dc
 
         def value_error(mb, ok):
@@ -278,6 +345,22 @@ class Model:
             return [] if ok else [X(None, mb, "value form rejected")]
 
         def step(name, mb, v):
+            if name == "attributes":
+                ok = dc.as_word_list(mb, v, allow_word=False)
+                if ok:
+                    st["attributes"] = ok
+                return value_error(mb, ok if ok is None else bool(ok))
+            if name == "forward_attrs":
+                ok = dc.as_word_list(mb, v, allow_word=True)
+                if ok:
+                    st["forward_attrs"] = True
+                return value_error(mb, ok if ok is None else bool(ok))
+            if name == "from_ident":
+                st["default"] = True          # any form is accepted; it installs a container default
+                return []
+            if name == "supports":
+                ok = dc.as_shape_list(mb, v)
+                return value_error(mb, ok)
             if name in ("from_word", "from_none"):
                 if st[name]:
                     return [X("Duplicate field", mb, "repeated %s" % name)]
@@ -313,7 +396,9 @@ class Model:
                     st["auf"] = True
                 return value_error(mb, ok)
             raise AssertionError(name)
-        errs = self.option_items("di*.attrs", ("from_word", "from_none", "default", "rename_all", "map", "and_then", "bound", "allow_unknown_fields"), step)
+        core = ("default", "rename_all", "map", "and_then", "bound", "allow_unknown_fields")
+        known = (("attributes", "forward_attrs", "from_ident") + (("supports",) if outer == "supports" else ()) + core) if outer else (("from_word", "from_none") + core)
+        errs = self.option_items("di*.attrs", known, step)
         return errs, st
 
     # ---------------------------------------------------------------- field
@@ -539,6 +624,79 @@ class Model:
         return out
 
 
+def model_from_derive_input(md, field_names):
+    """the FromDeriveInput derive: OuterFrom + FdiOptions on top of Core"""
+    dc = md.dc
+    dk = dc.d("di*.data#d")
+    if dk is None:
+        md.und("body kind")
+        return []
+    if dk == 1:
+        return [X("can only be derived for structs", "di*.ident", "enum for an element-level trait")]
+    if dk == 2:
+        return [X("Unions are not supported", None, "union")]
+    cerrs, cst = md.container(False, outer="supports")
+    if cerrs:
+        return cerrs
+    out = []
+    fb = "di*.data.Struct.0.fields"
+    style = dc.d(fb + "#d")
+    if style is None:
+        md.und("struct style")
+        return []
+    flattens = []
+    attrs_field = None
+    if style != 2:
+        lst = fb + (".Named.0.named" if style == 0 else ".Unnamed.0.unnamed")
+        n = dc.d(lst + "#len")
+        if n is None:
+            md.und("field count")
+            return []
+        for i in range(n):
+            fbase = "%s[%d]" % (lst, i)
+            fname = field_names[i] if style == 0 else None
+            if fname in ("ident", "vis", "generics"):
+                continue                                   # taken over as they are: their attributes are not read
+            if fname in ("attrs", "data"):
+                ferrs = md.forwarded_field(fbase)
+                out.extend(ferrs)
+                if fname == "attrs" and not ferrs:
+                    attrs_field = fbase
+                continue
+            ferrs, fst = md.field(fbase)
+            out.extend(ferrs)
+            if not ferrs and fst["flatten"]:
+                flattens.append(fst["flatten"])
+    if len(flattens) > 1:
+        for fl in flattens:
+            out.append(X("can only be applied to one field", fl, "more than one flatten field"))
+    if attrs_field is not None and not cst["forward_attrs"]:
+        out.append(X("`forward_attrs` is not set", attrs_field, "attrs field without forward_attrs"))
+    return out
+
+
+def _forwarded_field(self, fb):
+    """the magic `attrs` / `data` members: only `with = path`, once"""
+    st = {"with": False}
+    dc = self.dc
+
+    def step(name, mb, v):
+        if st["with"]:
+            return [X("Duplicate field", mb, "repeated with")]
+        ok = dc.as_path(v)
+        if ok is None:
+            self.und("value acceptance of %s" % mb[-40:])
+            return []
+        if not ok:
+            return [X(None, mb, "value form rejected")]
+        st["with"] = True
+        return []
+    return self.option_items(fb + ".attrs", ("with",), step)
+
+
+Model.forwarded_field = _forwarded_field
+
+
 def span_in(span, origin):
     if origin is None:
         return True
@@ -602,35 +760,35 @@ def focuses(quick):
     return fs
 
 
-def job(ck, prog, natbin, focus, quick):
+def job(ck, prog, natbin, focus, quick, derive="from_meta"):
     native = Native(natbin)
-    I, e, leaves = D.explore(ck, prog, "from_meta", focus)
+    I, e, leaves = D.explore(ck, prog, derive, focus)
     cnt = 0
     for l in leaves:
         if l.status not in ("returned", "panicked"):
             ck.obligations += 1
-            ck.engine("from_meta[%s]: leaf %s %s" % (focus.tag, l.status, str(l.info)[:300]))
+            ck.engine("%s[%s]: leaf %s %s" % (derive, focus.tag, l.status, str(l.info)[:300]))
             continue
         out = D.outcome(I, l)
         src = D.Src(prog, l, lambda l=l: ck.model_of(l.pc), darling=focus.only_darling, item_names=focus.item_names)
         dc = Decl(ck, prog, l, focus.item_names)
         md = Model(dc)
-        exp = md.from_meta()
+        exp = md.from_meta() if derive == "from_meta" else model_from_derive_input(md, focus.field_names)
         text = src.item_source(focus.field_names)
-        req = "(derive from_meta %s)" % sx_str(text)
+        req = "(derive %s %s)" % (derive, sx_str(text))
         if out[0] == "panic":
             ck.obligations += 1
             nat = native.ask(req)
             if isinstance(nat, dict) and "panic" in nat:
-                ck.report("from_meta:%s:panic" % focus.tag, "the derive panics (%s)" % str(out[1])[:120], {"property": "C10", "crate": "hmacro", "request": req, "observed": nat})
+                ck.report("%s:%s:panic" % (derive, focus.tag), "the derive panics (%s)" % str(out[1])[:120], {"property": "C10", "crate": "hmacro", "request": req, "observed": nat})
             else:
-                ck.engine("from_meta[%s]: symbolic panic %r not reproduced (%s)" % (focus.tag, out[1], req))
+                ck.engine("%s[%s]: symbolic panic %r not reproduced (%s)" % (derive, focus.tag, out[1], req))
             continue
         if md.undecided:
             # the table needs a part of the declaration this path never inspected: replay the default completion and compare verdicts only
             ck.obligations += 1
             nat = native.ask(req)
-            ck.engine("from_meta[%s]: the rule table needs the %s, which this path never inspected (%s -> %s)" % (focus.tag, md.undecided, req, str(nat)[:100]))
+            ck.engine("%s[%s]: the rule table needs the %s, which this path never inspected (%s -> %s)" % (derive, focus.tag, md.undecided, req, str(nat)[:100]))
             continue
         if exp:
             good, why = (out[0] == "errors"), "an impl is emitted although %r" % (exp,)
@@ -652,7 +810,7 @@ def job(ck, prog, natbin, focus, quick):
         r = nat.get("result", {}) if isinstance(nat, dict) else {}
         if isinstance(r, dict) and "parse_error" in r or src.unrealisable:
             if not good:
-                ck.engine("from_meta[%s]: %s; witness not replayable (%s)" % (focus.tag, why, req))
+                ck.engine("%s[%s]: %s; witness not replayable (%s)" % (derive, focus.tag, why, req))
             continue
         n_impl, n_err = r.get("impls"), len(r.get("errors", []))
         agree = (n_impl == 1 and n_err == 0) if not exp else (n_impl == 0 and n_err == len(exp) and all(
@@ -662,11 +820,11 @@ def job(ck, prog, natbin, focus, quick):
             if len(ck.samples) < 10 and exp:
                 ck.sample({"source": text, "expected": [x.why for x in exp], "native": r})
         elif good:
-            ck.report("from_meta:%s:native" % focus.tag, "native verdict differs from the rule table", {"property": "C10", "crate": "hmacro", "request": req, "expected": [repr(x) for x in exp], "observed": nat})
+            ck.report("%s:%s:native" % (derive, focus.tag), "native verdict differs from the rule table", {"property": "C10", "crate": "hmacro", "request": req, "expected": [repr(x) for x in exp], "observed": nat})
         elif agree:
-            ck.engine("from_meta[%s]: %s, but the native run agrees with the rule table (%s)" % (focus.tag, why, req))
+            ck.engine("%s[%s]: %s, but the native run agrees with the rule table (%s)" % (derive, focus.tag, why, req))
         else:
-            key = "from_meta:%s:%s" % (focus.tag, (exp[0].why if exp else "accepts-well-formed"))
+            key = "%s:%s:%s" % (derive, focus.tag, (exp[0].why if exp else "accepts-well-formed"))
             ck.report(key, why, {"property": "C10", "crate": "hmacro", "request": req, "expected": [repr(x) for x in exp], "observed": nat, "symbolic": repr(out)[:400]})
     native.close()
 
@@ -742,6 +900,21 @@ def prepare(ck):
                   "option values of other expression forms (their conversions are C11 / C13)", "longer option lists than the bounds"]
     ck.assumptions = ["the parse of a string literal option value (path, where clause) is an uninterpreted outcome", "as C06 (quote runtime, ident_case)"]
     jobs = [(lambda sub, f=f: job(sub, prog, natbin, f, quick)) for f in fs]
+    fdi = [
+        Focus("fdi-shapes", body=("Struct", "Enum", "Union"), style=("Named", "Unnamed", "Unit"), nf=(0, 2), nv=(0, 1), field_names=["field_a", "field_b", "field_c"]),
+        Focus("fdi-container-2items", body=("Struct",), style=("Named",), nf=(1, 1), cattrs=(1, 1), items=(0, 2), simple=True, field_names=["field_a", "field_b", "field_c"]),
+        Focus("fdi-attrs-field", body=("Struct",), style=("Named",), nf=(2, 2), cattrs=(0, 1), fattrs=(0, 1), items=(0, 1), simple=True, field_names=["attrs", "field_b", "field_c"],
+              item_names=["forward_attrs", "attributes", "with", "rename", "zzz"]),
+        Focus("fdi-magic-fields", body=("Struct",), style=("Named",), nf=(3, 3), fattrs=(0, 1), items=(0, 1), simple=True, field_names=["ident", "data", "vis"]),
+        Focus("fdi-attrs-2items", body=("Struct",), style=("Named",), nf=(1, 1), cattrs=(1, 1), fattrs=(1, 1), items=(1, 2), simple=True, field_names=["attrs", "field_b", "field_c"],
+              item_names=["forward_attrs", "with"]),
+    ]
+    if only:
+        fdi = [f for f in fdi if f.tag in only.split(",")]
+    for f in fdi:
+        jobs.append(lambda sub, f=f: job(sub, prog, natbin, f, quick, derive="from_derive_input"))
+    if fdi:
+        ck.programs.add("darling_core::derive::from_derive_input")
     if not only:
         ck.programs.add("darling_core::derive::from_derive_input (supports words)")
         jobs.append(lambda sub: supports_job(sub, prog, natbin, quick))
